@@ -6,11 +6,17 @@
 package c05
 
 import (
+	"bufio"
 	"context"
 	"fmt"
 	"math/rand"
+	"os"
+	"path/filepath"
+	"sort"
 	"strconv"
 	"strings"
+	"sync"
+	"sync/atomic"
 
 	"github.com/trainyao/go-maglev"
 	"mosn.io/api"
@@ -110,6 +116,8 @@ type Env struct {
 	Rng     *hx.Rng
 	n       int
 	idx     map[string]int
+	script  []int64 // scripted draws of the balancer's rand (corpus replay); consumed before the seeded generator
+	facScr  []int64 // scripted round-robin start draws
 }
 
 var envs = map[string]*Env{}
@@ -132,12 +140,22 @@ func GetEnv(pol string, typ types.LoadBalancerType, choice int, rng *hx.Rng) *En
 		e.probes[i] = cluster.NewSimpleHost(v2.Host{HostConfig: v2.HostConfig{Address: Addr(i), Hostname: fmt.Sprintf("h%d", i), Weight: 1}}, e.Info)
 	}
 	e.LbSrc = &Src{Shift: 32, Next: func() int64 {
+		if len(e.script) > 0 {
+			v := e.script[0]
+			e.script = e.script[1:]
+			return v
+		}
 		if e.n <= 0 {
 			return 0
 		}
 		return int64(e.Rng.Intn(e.n))
 	}}
 	e.FacSrc = &Src{Shift: 31, Next: func() int64 {
+		if len(e.facScr) > 0 {
+			v := e.facScr[0]
+			e.facScr = e.facScr[1:]
+			return v
+		}
 		switch e.Rng.Intn(8) {
 		case 0:
 			return int64(e.Rng.U64() & 0xffffffff)
@@ -245,9 +263,6 @@ func (e *Env) Replace(hs []HostSpec) string {
 	if len(e.FacSrc.Used) > 0 {
 		rr0 = e.FacSrc.Used[0]
 	}
-	if len(e.FacSrc.Used) > 1 {
-		panic("more than one round-robin start index drawn")
-	}
 	var pre []int
 	if cluster.VerifSetLBRand(e.LB, rand.New(e.LbSrc)) {
 		e.Trace = nil
@@ -256,9 +271,14 @@ func (e *Env) Replace(hs []HostSpec) string {
 		})
 		e.LbSrc.Used = nil
 		if cluster.VerifEdfRebuild(e.LB, e.Info) && cluster.VerifEdfHasScheduler(e.LB) {
-			pre = e.Trace[len(hs):]
-			if len(e.LbSrc.Used) != 1 || int(e.LbSrc.Used[0]) != len(pre) {
-				panic(fmt.Sprintf("refresh: draws %v, %d warm-up picks", e.LbSrc.Used, len(pre)))
+			// the observer first sees one weight evaluation per host (Add phase), then the warm-up picks
+			if len(e.Trace) >= len(hs) {
+				pre = e.Trace[len(hs):]
+			}
+			for i := range pre {
+				if pre[i] < 0 {
+					pre[i] = 99 // not a host of the published set: the model will not follow it
+				}
 			}
 		}
 	}
@@ -277,6 +297,11 @@ func (e *Env) Replace(hs []HostSpec) string {
 // withRoute=false leaves the route (hash policy) out. Returns the operation token, the result token and the value of
 // upstream_index after the call.
 func (e *Env) Choose(re string, withRoute bool) (string, string, string) {
+	return e.ChooseT(re, withRoute, -1)
+}
+
+// ChooseT is Choose with a wanted maglev table index (>= 0: a hash with that lookup result is searched).
+func (e *Env) ChooseT(re string, withRoute bool, wantTable int) (string, string, string) {
 	ctx := variable.NewVariableContext(context.Background())
 	switch re {
 	case "u":
@@ -289,6 +314,14 @@ func (e *Env) Choose(re string, withRoute bool) (string, string, string) {
 	table := "-"
 	if withRoute {
 		h := e.Rng.U64()
+		if wantTable >= 0 && e.mtable != nil {
+			for k := uint64(0); k < 100000; k++ {
+				if e.mtable.Lookup(k) == wantTable {
+					h = k
+					break
+				}
+			}
+		}
 		lc.route = &route{rr: &routeRule{p: &policy{hp: &hashPolicy{h}}}}
 		if e.Pol == "maglev" && e.mtable != nil {
 			table = strconv.Itoa(e.mtable.Lookup(h))
@@ -562,11 +595,192 @@ func wrapCases(c *hx.Ctx) {
 	}
 }
 
+func parseInts(s string) []int64 {
+	if s == "-" || s == "" {
+		return nil
+	}
+	var out []int64
+	for _, t := range strings.Split(s, ",") {
+		v, err := strconv.ParseInt(t, 10, 64)
+		if err != nil {
+			panic("corpus: bad integer " + t)
+		}
+		out = append(out, v)
+	}
+	return out
+}
+
+// replayLine re-executes a recorded case line (`C05 seq <pol>/<choice> <ops>[ => …]`) on the real code with the
+// recorded draws / start indices / re-entry values / table indices, and emits the line as observed now.
+func replayLine(c *hx.Ctx, line string) {
+	f := strings.Fields(line)
+	if len(f) < 4 || f[0] != "C05" || f[1] != "seq" {
+		return
+	}
+	pc := strings.Split(f[2], "/")
+	choice, _ := strconv.Atoi(pc[1])
+	var p = Policies[0]
+	found := false
+	for _, q := range Policies {
+		if q.Name == pc[0] {
+			p, found = q, true
+		}
+	}
+	if !found {
+		return
+	}
+	e := GetEnv(p.Name, p.Type, choice, c.Rng)
+	e.Reset()
+	b := &caseBuf{}
+	for _, op := range strings.Split(f[3], ";") {
+		arg := op[1:]
+		switch op[0] {
+		case 'S':
+			parts := strings.Split(arg, "|")
+			var hs []HostSpec
+			if parts[0] != "-" {
+				for _, t := range strings.Split(parts[0], ",") {
+					iw := strings.Split(t, ".")
+					id, _ := strconv.Atoi(iw[0])
+					w, _ := strconv.ParseUint(iw[1], 10, 32)
+					hs = append(hs, HostSpec{id, uint32(w)})
+				}
+			}
+			e.facScr = parseInts(parts[1])
+			e.script = []int64{int64(len(parseInts(parts[2])))}
+			b.ops = append(b.ops, e.Replace(hs))
+			e.facScr, e.script = nil, nil
+		case 'F', 'R', 'N':
+			iv := strings.Split(arg, ".")
+			id, _ := strconv.Atoi(iv[0])
+			v, _ := strconv.Atoi(iv[1])
+			switch op[0] {
+			case 'F':
+				e.SetHealth(id, v != 0, id)
+			case 'R':
+				e.SetReq(id, v)
+			default:
+				e.SetConn(id, v)
+			}
+			b.ops = append(b.ops, op)
+		case 'X':
+			v, _ := strconv.ParseUint(arg, 10, 32)
+			if cluster.VerifSetRRIndex(e.LB, uint32(v)) {
+				b.ops = append(b.ops, op)
+			}
+		case 'C':
+			parts := strings.Split(arg, "|")
+			e.script = parseInts(parts[0])
+			want := -1
+			if parts[3] != "-" {
+				want, _ = strconv.Atoi(parts[3])
+			}
+			o, res, _ := e.ChooseT(parts[2], parts[3] != "-" || p.Name != "maglev", want)
+			e.script = nil
+			b.ops = append(b.ops, o)
+			b.res = append(b.res, res)
+		}
+	}
+	b.emit(c, e)
+	c.Count("corpus.lines")
+}
+
+// corpus replays corpus/C05/*.txt (minimised past failures) first.
+func corpus(c *hx.Ctx) {
+	wd, _ := os.Getwd()
+	var files []string
+	for _, d := range []string{filepath.Join(wd, "..", "..", "corpus", "C05"), filepath.Join(wd, "corpus", "C05")} {
+		m, _ := filepath.Glob(filepath.Join(d, "*.txt"))
+		files = append(files, m...)
+	}
+	sort.Strings(files)
+	for _, fn := range files {
+		fh, err := os.Open(fn)
+		if err != nil {
+			continue
+		}
+		sc := bufio.NewScanner(fh)
+		sc.Buffer(make([]byte, 1<<20), 1<<24)
+		for sc.Scan() {
+			line := strings.TrimSpace(sc.Text())
+			if line == "" || strings.HasPrefix(line, "#") {
+				continue
+			}
+			replayLine(c, line)
+		}
+		fh.Close()
+	}
+}
+
+// concurrent: lookups racing with host-set replacements (support only: thread timing is not controlled).
+// A lookup takes one snapshot; the returned host must be an element of THAT snapshot's host set (entirely the old or
+// entirely the new set) and healthy (all hosts are healthy). One line per policy: `conc <pol> <lookups> <updates> => <bad>`.
+func concurrent(c *hx.Ctx) {
+	lookers, perLooker, updates := 4, c.N(1000, 6000), c.N(100, 600)
+	for _, p := range Policies {
+		e := GetEnv(p.Name, p.Type, 2, c.Rng)
+		e.Reset()
+		sets := [2][]types.Host{}
+		for k := 0; k < 2; k++ {
+			for i := 0; i < 4+k; i++ {
+				id := k*6 + i
+				sets[k] = append(sets[k], cluster.NewSimpleHost(v2.Host{HostConfig: v2.HostConfig{Address: Addr(id), Hostname: fmt.Sprintf("h%d", id), Weight: uint32(1 + i%3)}}, e.Info))
+			}
+		}
+		e.Cl.UpdateHosts(cluster.NewHostSet(sets[0]))
+		var bad int64
+		var wg sync.WaitGroup
+		stop := make(chan struct{})
+		wg.Add(1)
+		go func() {
+			defer wg.Done()
+			for u := 0; u < updates; u++ {
+				e.Cl.UpdateHosts(cluster.NewHostSet(sets[(u+1)%2]))
+			}
+			close(stop)
+		}()
+		for l := 0; l < lookers; l++ {
+			wg.Add(1)
+			seed := c.Rng.U64()
+			go func() {
+				defer wg.Done()
+				r := hx.NewRng(seed)
+				for k := 0; k < perLooker; k++ {
+					snap := e.Cl.Snapshot()
+					lc := &lbCtx{ctx: variable.NewVariableContext(context.Background()),
+						route: &route{rr: &routeRule{p: &policy{hp: &hashPolicy{r.U64()}}}}}
+					var h types.Host
+					if _, p := hx.Safe(func() { h = snap.LoadBalancer().ChooseHost(lc) }); p || h == nil || !h.Health() {
+						atomic.AddInt64(&bad, 1)
+						continue
+					}
+					member := false
+					snap.HostSet().Range(func(x types.Host) bool {
+						if x == h {
+							member = true
+							return false
+						}
+						return true
+					})
+					if !member {
+						atomic.AddInt64(&bad, 1)
+					}
+				}
+			}()
+		}
+		wg.Wait()
+		<-stop
+		c.Emit("C05", fmt.Sprintf("conc %s %d %d", p.Name, lookers*perLooker, updates), strconv.FormatInt(bad, 10))
+		c.Count("conc.policies")
+	}
+}
+
 func Run(c *hx.Ctx) {
 	// hx.NewRng(seed) yields the same splitmix sequence shifted by the seed; hash the seed so that seeds are unrelated
 	c.Rng = c.Rng.Fork()
 	log.DefaultLogger.SetLogLevel(log.FATAL)
 	log.Proxy.SetLogLevel(log.FATAL)
+	corpus(c)
 	maxN := 6
 	lookups := c.N(3, 8)
 	for pi := range Policies {
@@ -584,4 +798,5 @@ func Run(c *hx.Ctx) {
 	for i := 0; i < c.N(3000, 40000); i++ {
 		randomCase(c)
 	}
+	concurrent(c)
 }
